@@ -188,6 +188,12 @@ func c19R1(r *Report) {
 			if c, okc := bo.X.(*ssa.Call); okc && isStdCall(c, "net", "", "ParseIP") && c.Call.Args[0] == h {
 				return (bo.Op == token.NEQ) == pol
 			}
+			// _, err := netip.ParseAddr(host); err == nil — the same test in the newer API
+			if ex, okx := bo.X.(*ssa.Extract); okx && ex.Index == 1 {
+				if c, okc := ex.Tuple.(*ssa.Call); okc && isStdCall(c, "net/netip", "", "ParseAddr") && c.Call.Args[0] == h {
+					return (bo.Op == token.EQL) == pol
+				}
+			}
 		}
 		return false
 	}}
